@@ -788,8 +788,10 @@ func (ta *tokAnalysis) run(fn *ssa.Function, in tokPair, depth int) []tokPair {
 		}
 		return st, true
 	}
-	transfer := func(b *ssa.BasicBlock, st tokPair, final bool) (tokPair, bool) {
-		for _, instr := range b.Instrs {
+	var transfer func(b *ssa.BasicBlock, st tokPair, final bool, from int) []tokPair
+	transfer = func(b *ssa.BasicBlock, st tokPair, final bool, from int) []tokPair {
+		for idx := from; idx < len(b.Instrs); idx++ {
+			instr := b.Instrs[idx]
 			switch x := instr.(type) {
 			case *ssa.Call:
 				if ta.isRelease(&x.Call) {
@@ -821,10 +823,18 @@ func (ta *tokAnalysis) run(fn *ssa.Function, in tokPair, depth int) []tokPair {
 						}
 						st.s = res[0].s
 					} else if len(res) > 1 {
-						// ambiguous helper result: keep the worst case visible
-						if final {
-							note(funcName(fn)+":helper "+funcName(callee), ta.c.pos(x.Pos()), "helper has several token outcomes; analysis is path-insensitive across the call", true)
+						// the helper ends in one of several token states (it acquired and registered the transaction, or
+						// it failed and holds nothing): go on with each of them
+						var all []tokPair
+						for _, o := range res {
+							st2 := st
+							if final && st.s == tkH && o.s == tkN {
+								ta.releases[ta.curEntry]++
+							}
+							st2.s = o.s
+							all = append(all, transfer(b, st2, final, idx+1)...)
 						}
+						return all
 					}
 				}
 			case *ssa.Defer:
@@ -891,19 +901,20 @@ func (ta *tokAnalysis) run(fn *ssa.Function, in tokPair, depth int) []tokPair {
 				// explicit panics are not modelled
 			}
 		}
-		return st, true
+		return []tokPair{st}
 	}
 	changed := true
 	for iter := 0; changed && iter < 50; iter++ {
 		changed = false
 		for _, b := range fn.Blocks {
 			for st := range ins[b.Index] {
-				out, _ := transfer(b, st, false)
-				for i, s := range b.Succs {
-					ref, ok := refine(b, i, out)
-					if ok && !ins[s.Index][ref] {
-						ins[s.Index][ref] = true
-						changed = true
+				for _, out := range transfer(b, st, false, 0) {
+					for i, s := range b.Succs {
+						ref, ok := refine(b, i, out)
+						if ok && !ins[s.Index][ref] {
+							ins[s.Index][ref] = true
+							changed = true
+						}
 					}
 				}
 			}
@@ -912,7 +923,7 @@ func (ta *tokAnalysis) run(fn *ssa.Function, in tokPair, depth int) []tokPair {
 	outs = set{}
 	for _, b := range fn.Blocks {
 		for st := range ins[b.Index] {
-			transfer(b, st, true)
+			transfer(b, st, true, 0)
 		}
 	}
 	var res []tokPair
@@ -1028,7 +1039,7 @@ func ruleLock4(c *Ctx, r *Reporter) {
 		}
 	}
 	if fn := c.lookupSSA(pkgLungo, "Engine.Begin"); fn != nil {
-		allInstrs(fn, func(in ssa.Instruction) {
+		coneInstrs(fn, func(in ssa.Instruction) {
 			if ci, ok := in.(*ssa.Call); ok && ta.isAcquire(&ci.Call) {
 				acq++
 				// the result must be tested
@@ -1075,6 +1086,15 @@ func ruleLock5(c *Ctx, r *Reporter) {
 	var acquire *ssa.Call
 	var stores []*ssa.Store
 	var unlocks []ssa.Instruction
+	// the token wait and what follows may live in a private helper of Begin: the snapshot rule is judged there
+	beginFn := fn
+	coneInstrs(fn, func(in ssa.Instruction) {
+		if x, ok := in.(*ssa.Call); ok {
+			if f := calleeObj(&x.Call); f != nil && f.Pkg() != nil && f.Pkg().Path() == pkgDbkit && fullShort(f) == "Semaphore.Acquire" {
+				fn = x.Parent()
+			}
+		}
+	})
 	allInstrs(fn, func(in ssa.Instruction) {
 		switch x := in.(type) {
 		case *ssa.Call:
@@ -1156,7 +1176,7 @@ func ruleLock5(c *Ctx, r *Reporter) {
 	}
 	// the unlocked snapshot path must also read under the mutex
 	cnt := 0
-	allInstrs(fn, func(in ssa.Instruction) {
+	coneInstrs(beginFn, func(in ssa.Instruction) {
 		if u, ok := in.(*ssa.UnOp); ok && u.Op == token.MUL {
 			if _, ok := fieldAddrOf(u.X, catF); ok {
 				cnt++
